@@ -12,5 +12,6 @@ func TestReplay(t *testing.T) {
 		"HarnessHostileClient":            HarnessHostileClient,
 		"HarnessHostileClientLiveChannel": HarnessHostileClientLiveChannel,
 		"HarnessHostileServer":            HarnessHostileServer,
+		"HarnessHostileThenPipelined":     HarnessHostileThenPipelined,
 	})
 }
